@@ -94,6 +94,7 @@ def run_ranges(ctx, known):
     if vs is None:
         return
     kinds = {}
+    nviol = {}
     for c, o, v in zip(cases, outs, vs):
         nontriv = (not o.get("err")) and not o.get("hang") and len(o.get("ranges") or []) >= 2
         ctx.count(case_key=("r", c["fetch"], c["begin"], c["end"]), nontrivial=nontriv,
@@ -110,12 +111,18 @@ def run_ranges(ctx, known):
         if overflow and "C20-ranges-overflow" in known and (o.get("hang") or v[0] in (2, 3)):
             ctx.known("C20-ranges-overflow", known["C20-ranges-overflow"]["what"])
         elif o.get("hang") or v[0] == 3:
-            ctx.violation("calcRangeHeight does not terminate", rep)
+            nviol["hang"] = nviol.get("hang", 0) + 1
+            if nviol["hang"] <= 3:      # a few replays per kind are enough
+                ctx.violation("calcRangeHeight does not terminate", rep)
         elif v[0] == 2:
-            ctx.violation("ranges do not partition [begin,end]", rep)
+            nviol["part"] = nviol.get("part", 0) + 1
+            if nviol["part"] <= 3:
+                ctx.violation("ranges do not partition [begin,end]", rep)
         else:
             # model and implementation differ but the implementation's answer still satisfies the property
             ctx.broken("correspondence:judge_ranges", "first differing case: " + json.dumps(rep))
+    if nviol:
+        kinds["violating_cases"] = nviol
     ctx.extra["ranges_distribution"] = kinds
 
 
@@ -191,6 +198,52 @@ def gen_raft(r, style=None, maxops=30):
                 pending -= 1
                 if ops[-1][0] == "entp":
                     nh += 1
+    return h
+
+
+def gen_crashpoints(r):
+    """a log with optional stale / future / empty entries; deliver a prefix, execute some of what was handed
+    over, report some of what was executed (any order), crash; replay everything; finish; crash; replay"""
+    init = r.choice([0, 1, 4, 9])
+    h = dict(kind="raft", init=init, snap=r.choice([1000, 1000, 1000, 2, 3]), batch=1, id=1, style="crashpoints", ops=[])
+    ops = h["ops"]
+    nh, tx = init + 1, 100
+    ents = []
+    for _ in range(r.randrange(3, 8)):
+        tx += 100
+        k = r.random()
+        if k < 0.18 and nh > init + 1:
+            ents.append(["ent", 1, r.randrange(max(init, nh - 3), nh), [tx]])
+        elif k < 0.36:
+            # a batch from the future, then (usually) the regular ones that fill the gap
+            ents.append(["ent", 1, nh + 1, [tx]])
+            if r.random() < 0.8:
+                ents.append(["ent", 1, nh, [tx + 1]])
+                ents.append(["ent", 1, nh + 1, [tx + 2]])
+                nh += 2
+        elif k < 0.44:
+            ents.append(["ent", 0, 0, []])
+        else:
+            ents.append(["ent", 1, nh, [tx]])
+            nh += 1
+    ops += ents
+    n = len(ents)
+    a = r.randrange(0, n + 1)
+    ops.append(["ready", 0, a, r.choice([0, 0, 2]), r.choice([0, 2, 3])])
+    b = r.randrange(0, a + 1)
+    ops += [["exec"]] * b
+    for _ in range(r.randrange(0, b + 1)):
+        ops.append(["report", r.randrange(0, max(1, b))])
+    if r.random() < 0.3:
+        ops.append(["ready", 0, r.randrange(0, 3), 0, 0])
+    ops.append(["crash"])
+    ops.append(["ready", 0, 99, 0, 0])
+    ops += [["exec"]] * r.randrange(0, n + 1)
+    for _ in range(r.randrange(0, 3)):
+        ops.append(["report", r.randrange(0, 3)])
+    ops.append(["crash"])
+    ops.append(["ready", 0, 99, 0, 0])
+    ops += [["exec"]] * r.randrange(0, 3)
     return h
 
 
@@ -432,9 +485,23 @@ def solo_row(h, t, flags):
 
 # ------------------------------------------------------------------------------------------- deciding
 
+def resolved_log(h, t):
+    """(kind, height, txs, origin) per log entry, for both driver modes"""
+    if h["kind"] == "raft":
+        return raft_resolve(h, t)[0]
+    out = []
+    for e in real_to_model(h, t)[0]:
+        if e.startswith("EBatch"):
+            hh, rest = e[len("EBatch "):].split(" ", 1)
+            out.append((1, int(hh), [int(x) for x in rest.strip("[] ").split(";") if x.strip()], "entp"))
+        else:
+            out.append((0, 0, [], "ent"))
+    return out
+
+
 def log_has_future_entry(h, t):
     """python mirror of ~nogap: some entry's height is above canonical height + 1 at its position"""
-    log, _, _ = raft_resolve(h, t)
+    log = resolved_log(h, t)
     c = h["init"]
     for kind, hh, _, _ in log:
         if kind != 1:
@@ -448,7 +515,9 @@ def log_has_future_entry(h, t):
 
 def own_reproposal(h, t):
     """a transaction is in two delivered blocks and the later block's entry is this node's own proposal"""
-    log, _, _ = raft_resolve(h, t)
+    if h["kind"] != "raft":
+        return False
+    log = resolved_log(h, t)
     own = set()
     for kind, hh, txs, origin in log:
         if origin == "entp":
@@ -481,7 +550,8 @@ def decide_raft(ctx, known, h, t, v):
             return ("known", "C20-raft-snapshot-unexecuted")
         if p == 5 and bits != 9 and own_reproposal(h, t) and "C20-raft-new-leader-rebatches-delivered-tx" in known:
             return ("known", "C20-raft-new-leader-rebatches-delivered-tx")
-        what = {1: "heights handed to the executor are not lastExec+1, +2, ...", 2: "a delivered block is not the block of the log's canonical chain at its height (replicas diverge)",
+        what = {7: "the replica became leader and its batch sequence number is not lastExec", 6: "a block at or below the executed height was handed to the executor again",
+                1: "heights handed to the executor are not lastExec+1, +2, ...", 2: "a delivered block is not the block of the log's canonical chain at its height (replicas diverge)",
                 3: "the executed blocks are not a prefix of the log's canonical chain", 4: "an entry of a block that was never executed was skipped (applied index ahead of lastExec)",
                 5: "a transaction is in two delivered blocks"}.get(p, "property predicate %d" % p)
         return ("violation", what)
@@ -504,10 +574,20 @@ def decide_solo(ctx, known, h, t, v):
     return ("broken", "solo history outside the model's domain")
 
 
-def run_order_batch(exe, hs):
+def run_order_batch(exe, hs, isolate=True):
     rc, outs, e = vlib.run_driver(exe, "order", hs, timeout=1800)
     if rc != 0 or len(outs) != len(hs):
         return None, "driver rc=%s outs=%d/%d %s" % (rc, len(outs), len(hs), e[-1200:])
+    # a worker process that died (panic / Fatalf inside the node) takes the rest of its share with it:
+    # run those histories again, each in a process of its own, to find the one that kills the node
+    dead = [i for i, t in enumerate(outs) if t.get("err") == "worker died"]
+    if dead and isolate:
+        for i in dead[:60]:
+            rc1, o1, e1 = vlib.run_driver(exe, "order", [hs[i]], timeout=300)
+            if rc1 == 0 and len(o1) == 1:
+                outs[i] = o1[0]
+                if o1[0].get("err") == "worker died":
+                    outs[i]["stderr"] = e1[-800:]
     return outs, ""
 
 
@@ -600,8 +680,9 @@ def run_order(ctx, known):
                 hs.append(hh)
     n_corpus = len(hs)
     r = ctx.rng
-    n_raft, n_solo, n_real = (260, 70, 10) if ctx.quick else (6000, 1200, 120)
+    n_raft, n_solo, n_real = (200, 70, 10) if ctx.quick else (5000, 1200, 120)
     hs += [gen_raft(r) for _ in range(n_raft)]
+    hs += [gen_crashpoints(r) for _ in range(n_raft // 2)]
     hs += [gen_solo(r) for _ in range(n_solo)]
     hs += [gen_real(r) for _ in range(n_real)]
     outs, msg = run_order_batch(exe, hs)
@@ -631,6 +712,13 @@ def run_order(ctx, known):
         if kind == "raft":
             dist["style:" + h.get("style", "corpus")] = dist.get("style:" + h.get("style", "corpus"), 0) + 1
         if v == (9, 0) or v == (9, 1):
+            if t.get("err") == "worker died" and t.get("stderr") is not None:
+                key = ("violation", "died", kind)
+                if key not in reported:
+                    reported.add(key)
+                    ctx.violation("the ordering node's process died (panic / fatal) on a history the environment can produce",
+                                  dict(property="C20", driver="order", history=h, impl=t, what="process died: " + t["stderr"][-400:]))
+                continue
             ctx.broken("driver:order", "history %d (%s): %s" % (i, kind, t.get("err") or "trace not translatable"))
             continue
         d = decide_solo(ctx, known, h, t, v) if kind == "solo" else decide_raft(ctx, known, h, t, v)
